@@ -16,11 +16,11 @@ import (
 // Canonizer turns object graphs into canonical strings: pointers are numbered in discovery
 // order (isomorphic heaps get equal keys), unexported fields are read through reflect.
 type Canonizer struct {
-	SkipTypes   map[reflect.Type]bool // e.g. *rand.Rand: contributes only nil / non-nil
-	SkipFields  map[string]bool       // "TypeName.field": not dumped at all (state the property cannot observe AND that cannot influence futures)
-	RenameType  reflect.Type          // values of this type are renamed in order of first appearance (symmetry by parametricity)
-	WithCap     bool                  // include slice capacities
-	Verbose     bool                  // keep the full dump instead of a hash (debugging / structural invariants)
+	SkipTypes  map[reflect.Type]bool // e.g. *rand.Rand: contributes only nil / non-nil
+	SkipFields map[string]bool       // "TypeName.field": not dumped at all (state the property cannot observe AND that cannot influence futures)
+	RenameType reflect.Type          // values of this type are renamed in order of first appearance (symmetry by parametricity)
+	WithCap    bool                  // include slice capacities
+	Verbose    bool                  // keep the full dump instead of a hash (debugging / structural invariants)
 }
 
 type walker struct {
